@@ -97,8 +97,6 @@ class FsScenario(Scenario):
         faults = {}
         if frng.random() < 0.5:
             faults["short_read"] = [frng.choice([32, 48, 64, 96, 300, 0]) for _ in range(frng.randrange(1, 5))]
-        if frng.random() < 0.1:
-            faults["eintr_reads"] = sorted({frng.randrange(0, 12) for _ in range(frng.choice([1, 2]))})
         sched = draw_sched(cfg, line=cfg.random() < self.line_share, pct_k=3000, step_cap=400_000, horizon=3600, pct_share=0.15)
         if sched.get("p_line", 0) > 0.05:
             sched["p_line"] = 0.02
@@ -439,6 +437,16 @@ class C07(FsScenario):
                 fm.apply(m, op)
             n0 = len(m.dirs_in("root"))  # add_watch calls made by schedule/start itself are never faulted
             case["faults"]["vanish"] = {str(n0 + frng.randrange(0, 12)): True for _ in range(frng.choice([1, 1, 2]))}
+        elif frng.random() < 0.3:
+            # the kernel refuses a watch at run time (watch limit reached / permission): that directory stays unwatched,
+            # but nothing else may break
+            import errno as _errno
+
+            m = fm.Model()
+            for op in case["pre"]:
+                fm.apply(m, op)
+            n0 = len(m.dirs_in("root"))
+            case["faults"]["add_fail"] = {str(n0 + frng.randrange(0, 10)): frng.choice([_errno.ENOSPC, _errno.ENOSPC, _errno.EACCES])}
         if rng.random() < 0.25:
             case["ops"].append(["drain"])
             case["ops"].append(["rmroot"])
@@ -457,6 +465,7 @@ class C07(FsScenario):
         res["root_deleted"] = True
         res["root_deleted_events"] = [e["shape"] for e in run.events if e["shape"][2] == "root" and e["shape"][0] == "deleted"]
         res["alive_after_rmroot"] = [t.name for t in sim.tasks if t.kind == "lib" and t.state != DONE and not t.name.startswith("BaseObserver")]
+        res["open_fds_after_rmroot"] = run.kshim.open_fds()
         n0 = len(run.events)
         os.mkdir(run.real("root"))
         with open(run.real("root/again"), "w"):
@@ -477,6 +486,10 @@ class C07(FsScenario):
             return v
         pr = res.get("probes")
         faulty = bool(run.vanished)
+        if pr and pr["missing"] and run.kshim.failed_adds:
+            # a directory whose watch the kernel refused (and what lies below it) is legitimately unwatched
+            refused = [run.norm(p) for p in run.kshim.failed_adds]
+            pr["missing"] = [d for d in pr["missing"] if not any(r and fm.is_under(d, r) for r in refused)]
         if pr and pr["missing"]:
             v.append(Violation("unreported", f"C07:later-change-unreported:{'rec' if run.recursive else 'nonrec'}{':after-vanish' if faulty else ''}", f"after the history, changes in {pr['missing']} are not reported; ops={run.case['ops']} vanished={run.vanished}"))
         if res.get("root_deleted"):
@@ -489,6 +502,9 @@ class C07(FsScenario):
                 v.append(Violation("root-deleted", "C07:events-after-root-deleted", f"{res['events_after_rmroot'][:5]}"))
             if res.get("open_fds"):
                 v.append(Violation("root-deleted", "C07:descriptors-open-after-root-deleted-and-stop", f"{res['open_fds']}"))
+            if res.get("open_fds_after_rmroot") and not res["alive_after_rmroot"]:
+                # "stops cleanly": the emitter's own shutdown releases its descriptors, not a later stop()/unschedule()
+                v.append(Violation("root-deleted", "C07:descriptors-open-after-root-deleted", f"{res['open_fds_after_rmroot']}"))
         return v
 
 
